@@ -1292,6 +1292,89 @@ def d2h_option_names_fold_case(chk: Check, rid: str = "C05-D2h",
                 chk.ok(rid, fi, makes[0], text, "default option folding")
 
 
+def d1p_destination_kind_is_checked(chk: Check) -> None:
+    """Each merger that writes into its left operand first refuses a left
+    operand of another kind with a MergeException ("Impossible to add Hash
+    data to non-Hash destination").  The siblings agree on this -- a merger
+    without the test meets `a: hello` + `a: !!set {x}` with
+    AttributeError: 'str' object has no attribute 'add'."""
+    prog = chk.prog
+    chk.rule("C05-D1p", "every merger that mutates its left operand starts "
+             "by refusing a left operand of another kind (isinstance test "
+             "-> MergeException)", floor=4)
+    from sa.effects import mutation_sites
+    for q in ("Merger._merge_dicts", "Merger._merge_simple_lists",
+              "Merger._merge_arrays_of_hashes", "Merger._merge_sets"):
+        fi = prog.func(q)
+        lhs = fi.params()[1]
+        guard = None
+        for st in fi.node.body:
+            if isinstance(st, ast.If) and isinstance(st.test, ast.UnaryOp) \
+                    and isinstance(st.test.op, ast.Not) and \
+                    isinstance(st.test.operand, ast.Call) and \
+                    src(st.test.operand.func) == "isinstance" and \
+                    src(st.test.operand.args[0]) == lhs and any(
+                        isinstance(x, ast.Raise) and
+                        "MergeException" in src(x) for x in st.body):
+                guard = st
+                break
+            if not isinstance(st, ast.Expr):
+                break      # only the docstring may precede the guard
+        text = "{}: left operand `{}`".format(fi.short, lhs)
+        if guard is not None:
+            chk.ok("C05-D1p", fi, guard, text,
+                   "refused unless " + src(guard.test.operand))
+        else:
+            chk.fail("C05-D1p", fi, fi.node, text,
+                     "no kind test on the left operand before it is "
+                     "written to: a scalar, list or hash on the left and "
+                     "this kind on the right end in AttributeError / "
+                     "TypeError instead of a MergeException")
+
+
+def d1q_rekeying_keeps_position(chk: Check) -> None:
+    """When a key of an ordered mapping is replaced by another object (the
+    node of the surviving Anchor takes the place of the losing one), the
+    entry keeps its place: `m.insert(position, new_key, m.pop(old_key))`.
+    `m[new_key] = m.pop(old_key)` looks equivalent but appends the entry at
+    the end, so every key that followed it moves ahead of it -- the merged
+    document has the right values in another order."""
+    prog = chk.prog
+    chk.rule("C05-D1q", "an entry taken out of a mapping with pop() to be "
+             "re-keyed is put back with insert(position, ...), never by a "
+             "plain subscript store", floor=1)
+    n = 0
+    for rel in ("yamlpath/common/anchors.py", "yamlpath/merger/merger.py"):
+        for fi in prog.funcs_in(rel):
+            for c in walk_local(fi.node):
+                if not (isinstance(c, ast.Call) and
+                        isinstance(c.func, ast.Attribute) and
+                        c.func.attr == "pop" and len(c.args) == 1 and
+                        src(c.func.value) not in ("kwargs",)):
+                    continue
+                p_ = parent(c)
+                cont = src(c.func.value)
+                if isinstance(p_, ast.Call) and \
+                        isinstance(p_.func, ast.Attribute) and \
+                        p_.func.attr == "insert" and \
+                        src(p_.func.value) == cont and len(p_.args) == 3:
+                    n += 1
+                    chk.ok("C05-D1q", fi, p_, "{}: {}".format(
+                        fi.short, src(p_)[:60]), "re-inserted at a position")
+                elif isinstance(p_, ast.Assign) and any(
+                        isinstance(t, ast.Subscript) and
+                        src(t.value) == cont for t in p_.targets):
+                    n += 1
+                    chk.fail("C05-D1q", fi, p_, "{}: {}".format(
+                        fi.short, src(p_)[:60]),
+                        "the re-keyed entry is stored by subscript: it "
+                        "lands behind every other key of `{}`, so the keys "
+                        "that followed it move ahead (values intact, order "
+                        "changed)".format(cont))
+    if n < 1:
+        raise AnalysisError("re-keying sites found: {}".format(n))
+
+
 def run(chk: Check) -> None:
     d1_lists(chk)
     d1_dicts(chk)
@@ -1303,6 +1386,8 @@ def run(chk: Check) -> None:
     d1j_same_normalisation(chk)
     d1l_results_are_used(chk)
     d1k_snapshot_of_right_operand(chk)
+    d1q_rekeying_keeps_position(chk)
+    d1p_destination_kind_is_checked(chk)
     d2h_option_names_fold_case(chk)
     from rules.shared import effects_not_shortcircuited_rule
     effects_not_shortcircuited_rule(
